@@ -60,10 +60,15 @@ def same_seq(got, exp):
 class SortedSetSpec(Spec):
     name = "SortedSet"
 
-    def __init__(self, max_init_len, operands):
+    def __init__(self, max_init_len, operands, sparse=False):
         self.max_init_len = max_init_len
         self.operands = operands
         self.nontrivial_keys = set()
+        # sparse mode: look-ups are explicit operations of the menu and nothing but iteration and len() is
+        # observed after a step, so that an observation cannot repair (or hide) state left by an earlier one
+        self.sparse = sparse
+        if sparse:
+            self.name = "SortedSet/sparse"
 
     # ---- initial configurations
     def initials(self):
@@ -100,6 +105,10 @@ class SortedSetSpec(Spec):
         for v in V:
             ops.append(("remove", v))
         ops += [("pop",), ("clear",)]
+        if self.sparse:
+            for v in V:
+                ops.append(("in", v))
+            return ops
         for name in ("ior", "isub", "iand", "ixor"):
             for o in self.operands:
                 ops.append((name, list(o)))
@@ -111,6 +120,12 @@ class SortedSetSpec(Spec):
     def step(self, s, model, op):
         model = set(model)
         kind = op[0]
+        if kind == "in":
+            r = observe(s.__contains__, op[1])
+            if r != ("ok", op[1] in model):
+                raise Mismatch("membership", "%r in s -> %r with reference %r" % (op[1], r, sorted(model)),
+                               {"present": op[1] in model, "mode": "sparse"})
+            return model
         if kind == "add":
             r = observe(s.add, op[1])
             model.add(op[1])
@@ -188,6 +203,8 @@ class SortedSetSpec(Spec):
         r = observe(len, s)
         if r != ("ok", len(model)):
             raise Mismatch("len", "len(s) -> %r, reference %d" % (r, len(model)))
+        if self.sparse:
+            return
         for p in PROBES:
             r = observe(s.__contains__, p)
             if r != ("ok", p in model):
@@ -247,7 +264,10 @@ class SortedSetSpec(Spec):
 class SortedMapSpec(Spec):
     name = "SortedMap"
 
-    def __init__(self, max_init_len, max_update_len):
+    def __init__(self, max_init_len, max_update_len, sparse=False):
+        self.sparse = sparse
+        if sparse:
+            self.name = "SortedMap/sparse"
         self.max_init_len = max_init_len
         self.nontrivial_keys = set()
         self.updates = []
@@ -318,6 +338,10 @@ class SortedMapSpec(Spec):
         for k in V:
             ops.append(("popd", k))
         ops += [("popitem",), ("clear",)]
+        if self.sparse:
+            for k in V:
+                ops += [("getitem", k), ("get", k), ("in", k)]
+            return ops
         for k in V:
             for v in VALS:
                 ops.append(("setdefault", k, v))
@@ -328,6 +352,19 @@ class SortedMapSpec(Spec):
     def step(self, m, model, op):
         model = dict(model)
         kind = op[0]
+        if kind in ("getitem", "get", "in"):
+            k = op[1]
+            present = k in model
+            if kind == "getitem":
+                r, want = observe(m.__getitem__, k), (("ok", model[k]) if present else ("exc", "KeyError"))
+            elif kind == "get":
+                r, want = observe(m.get, k, DEFAULT), ("ok", model.get(k, DEFAULT))
+            else:
+                r, want = observe(m.__contains__, k), ("ok", present)
+            if r != want:
+                raise Mismatch("lookup" if kind != "in" else "membership", "%s(%r) -> %r, reference %r (items %r)" % (
+                    kind, k, r, want, sorted(model.items())), {"present": present, "mode": "sparse"})
+            return model
         if kind == "set":
             r = observe(m.__setitem__, op[1], op[2])
             model[op[1]] = op[2]
@@ -394,6 +431,11 @@ class SortedMapSpec(Spec):
                            {"duplicates": any(a == b for a, b in zip(r[1], r[1][1:]))})
         if not same_seq(r[1], exp_keys):
             raise Mismatch("content", "list(m) == %r, sorted(reference dict) == %r" % (r[1], exp_keys))
+        if self.sparse:
+            r = observe(len, m)     # items()/values() look every key up: not in sparse mode
+            if r != ("ok", len(model)):
+                raise Mismatch("len", "len(m) -> %r, reference %d" % (r, len(model)))
+            return
         r = observe(lambda: list(m.items()))
         if r[0] != "ok" or not same_seq(r[1], exp_items):
             raise Mismatch("content", "list(m.items()) -> %r, sorted(reference.items()) == %r" % (r, exp_items), {"view": "items"})
@@ -406,6 +448,8 @@ class SortedMapSpec(Spec):
         r = observe(len, m)
         if r != ("ok", len(model)):
             raise Mismatch("len", "len(m) -> %r, reference %d" % (r, len(model)))
+        if self.sparse:
+            return
         for p in PROBES:
             present = p in model
             want = ("ok", model[p]) if present else ("exc", "KeyError")
@@ -503,7 +547,7 @@ def run(report, tier):
                 "typed probes 's', None, (1,) answering absent with the canonical state unchanged); every initialiser "
                 "is additionally built and evaluated once; non-trivial = distinct reachable state with >= 2 keys"
                 % len(PROBES))
-    sset = SortedSetSpec(max_init_len, operands)
+    sset = SortedSetSpec(max_init_len + (1 if quick else 0), operands)     # a value repeated three times needs length 3
     smap = SortedMapSpec(max_init_len, max_update_len)
     n_set_inits = sum(1 for _ in sset.initials())
     n_map_inits = sum(1 for _ in smap.initials())
@@ -523,6 +567,13 @@ def run(report, tier):
         if not r_["closed"]:    # only a defective tree gets here (stale internal state makes the graph infinite)
             part["exhaustive"] = False
             part["cap_hit"] = "state cap %d reached: states beyond it were evaluated but not expanded" % cap
+            report.cov["exhaustive"] = False
+    # sparse mode (explicit look-ups as operations, no probe sweep after a step): catches state left behind by one
+    # look-up that the next one would otherwise overwrite
+    for spec, cap in ((SortedSetSpec(1, [], sparse=True), SET_STATE_CAP * 4), (SortedMapSpec(1, 0, sparse=True), MAP_STATE_CAP * 4)):
+        r3 = explore(spec, report, max_depth=None, max_states=cap)
+        if not r3["closed"]:
+            report.cov["parts"][-1]["exhaustive"] = False
             report.cov["exhaustive"] = False
     if (res["states"] < 48 or res2["states"] < 405) and not report.violations and not report.known_hits:
         report.harness_error("C09: fewer distinct states than subsets of the alphabet (%d sets, %d maps): vacuous driver"
